@@ -80,6 +80,49 @@ static lltd_iface_state *lltd_state_for_iface(void *iface_ctx) {
 }
 
 #ifdef LLTD_VERIF_HOOKS
+/* projection of one interface's record for the verification harness: mapper binding, sequence number,
+ * generations, icon cache, and the observation list as (real source, Ethernet source, Ethernet
+ * destination) triples, newest first.  Returns 0 when the interface has no record yet. */
+typedef struct lltd_verif_iface_view {
+    uint8_t  mapper_known;
+    uint8_t  mapper_real[6];
+    uint8_t  mapper_apparent[6];
+    uint16_t mapper_seq;
+    uint16_t gen_topology;
+    uint16_t gen_quick;
+    uint8_t  icon_cached;
+    uint32_t see_count;       /* as counted by the record */
+    uint32_t see_listed;      /* entries actually reachable (<= cap are copied) */
+} lltd_verif_iface_view;
+
+int lltd_verif_iface_view_get(void *iface_ctx, lltd_verif_iface_view *out, uint8_t (*see)[18], size_t cap) {
+    for (lltd_iface_state *cur = g_iface_states; cur != NULL; cur = cur->next) {
+        if (cur->iface_ctx != iface_ctx) {
+            continue;
+        }
+        out->mapper_known = cur->mapper_known;
+        lltd_port_memcpy(out->mapper_real, cur->mapper_real.a, 6);
+        lltd_port_memcpy(out->mapper_apparent, cur->mapper_apparent.a, 6);
+        out->mapper_seq = cur->mapper_seq;
+        out->gen_topology = cur->mapper_gen_topology;
+        out->gen_quick = cur->mapper_gen_quick;
+        out->icon_cached = (cur->small_icon != NULL) ? 1 : 0;
+        out->see_count = cur->see_list_count;
+        uint32_t n = 0;
+        for (probe_t *p = cur->see_list; p != NULL; p = (probe_t *)p->nextProbe) {
+            if (n < cap) {
+                lltd_port_memcpy(see[n], p->realSourceAddr.a, 6);
+                lltd_port_memcpy(see[n] + 6, p->sourceAddr.a, 6);
+                lltd_port_memcpy(see[n] + 12, p->destAddr.a, 6);
+            }
+            n++;
+        }
+        out->see_listed = n;
+        return 1;
+    }
+    return 0;
+}
+
 /* interface contexts whose record is reachable from the registry head, newest first */
 size_t lltd_verif_registry_snapshot(void **out_ctx, size_t cap) {
     size_t n = 0;
